@@ -190,7 +190,11 @@ def identity_and_batches(ctx, n):
             m = np.array([[rng.randint(-3, 3) for _ in range(3)] for _ in range(3)])
             if abs(round(np.linalg.det(m))) >= 1:
                 mats.append(m)
-        T = g.TransformationCollection(np.array(mats, dtype=dtype))
+        arrT = np.array(mats, dtype=dtype)
+        if dtype is float:
+            # one member given by a small representative (projectively the same map, |det| far below 1e-8): still invertible
+            arrT[rng.randrange(size)] *= rng.choice([0.005, 1e-3])
+        T = g.TransformationCollection(arrT)
         l = g.Line(float(rng.randint(1, 4)), float(rng.randint(-4, 4)), float(rng.randint(-4, 4)))
         p = g.Point(float(rng.randint(-4, 4)), float(rng.randint(-4, 4)))
         desc = f"{size} transformations ({dtype.__name__}): t.inverse() * (t * x) for a point and a line; first {mats[0].tolist()}"
@@ -205,7 +209,7 @@ def identity_and_batches(ctx, n):
             ctx.disagree(f"C06:batch-inverse:{dtype.__name__}", desc, "x at every position", "differs", replay=[desc])
 
 
-def collection_on_polytope_stream(ctx, n):
+def collection_on_polytope_stream(ctx, n, prefix="C06"):
     """a TransformationCollection applied to a single segment / polygon / cuboid gives, at position i, the image under the i-th
     transformation (collection axes do not pair with vertex axes); applied to a polytope collection of the same length it acts
     position by position"""
@@ -248,8 +252,27 @@ def collection_on_polytope_stream(ctx, n):
             got = np.asarray(r[1].array, dtype=float).reshape(-1, dim + 1)
             ok = all(proj_equal_positions(e[None], p[None], 1) for e, p in zip(exp.reshape(-1, dim + 1), got))
         if not ok:
-            ctx.disagree("C06:collection-on-polytope:" + kind, desc, "position i = i-th transformation applied to the polytope",
+            ctx.disagree(f"{prefix}:collection-on-polytope:" + kind, desc, "position i = i-th transformation applied to the polytope",
                          r[1:3] if r[0] != "ok" else np.round(np.asarray(r[1].array, dtype=float), 5).tolist(), replay=[desc])
+        # the same transformations against a COLLECTION of m such polytopes (moved copies): position i = i-th map on the i-th polytope
+        if kind in ("segment", "polygon", "polygon3"):
+            shifts = [g.translation(*[float(j + 1)] * dim) for j in range(m)]
+            Xs = [sh * X for sh in shifts]
+            coll_cls = g.SegmentCollection if kind == "segment" else g.PolygonCollection
+            XC = coll_cls(np.stack([np.asarray(x.array, dtype=float) for x in Xs]))
+            singles2 = [call_impl(lambda t=t, x=x: t * x) for t, x in zip(ts, Xs)]
+            if all(x[0] == "ok" for x in singles2):
+                r2 = call_impl(lambda: tc * XC)
+                exp2 = np.stack([np.asarray(x[1].array, dtype=float) for x in singles2])
+                ok2 = r2[0] == "ok" and np.asarray(r2[1].array).shape == exp2.shape
+                if ok2:
+                    got2 = np.asarray(r2[1].array, dtype=float).reshape(-1, dim + 1)
+                    ok2 = all(proj_equal_positions(e[None], q[None], 1) for e, q in zip(exp2.reshape(-1, dim + 1), got2))
+                ctx.count("collection-on-polytope-collection:" + kind)
+                if not ok2:
+                    ctx.disagree(f"{prefix}:collection-on-polytope-collection:" + kind, desc + " (and on a collection of its translates)",
+                                 "position i = i-th transformation applied to the i-th polytope",
+                                 r2[1:3] if r2[0] != "ok" else np.asarray(r2[1].array).shape, replay=[desc])
 
 
 def correspondence(ctx):
